@@ -6,6 +6,8 @@ use memterm::screen::Screen;
 thread_local! {
     /// the `private` argument the dispatch table passed for the call being forwarded (ED, EL, DA)
     pub static PRIVATE: std::cell::Cell<Option<bool>> = std::cell::Cell::new(None);
+    /// the last `private` argument any ED / EL / DA call received (for the dispatch probes)
+    pub static LAST_PRIVATE: std::cell::Cell<Option<Option<bool>>> = std::cell::Cell::new(None);
 }
 
 pub type O = Option<u32>;
